@@ -274,6 +274,19 @@ def finish (kind : List Char) (d : List (List Char × Val)) : Res Val :=
     | _, _ => .err
   else .ok (.dict (Tags.ofList d))
 
+/-- `return Ok(HVal::make_marker())` (likewise remove, na) out of the `while let … next_entry()` loop: the
+visitor leaves `visit_map` without having consumed the map.  serde_json then refuses the map unless nothing
+was left in it: `from_str`/`from_slice` (`Deserializer::end_map`) find `,` where `}` must follow
+("trailing comma"), `from_value` (`visit_object`) finds `remaining != 0` ("invalid length … fewer elements in
+map").  So the singleton is the answer only when the `_kind` member was the LAST member visited (document
+order for the text entry points, key order for `from_value`); members visited BEFORE it were inserted into
+the dict and are dropped.  Measured on the pinned tree, 2026-09-29: `{"_kind":"marker","x":1}` Err/Err,
+`{"x":1,"_kind":"marker"}` Ok(Marker) from text, Err from_value, `{"A":1,"_kind":"marker"}` Ok/Ok. -/
+def earlyReturn (rest : Members) (v : Val) : Res Val :=
+  match rest with
+  | .nil => .ok v
+  | .cons _ _ _ => .err
+
 mutual
 /-- `JsonValueDecoderVisitor` -/
 def fromJson : Json → Res Val
@@ -295,7 +308,8 @@ def seq : Jsons → Res (List Val)
       | .ok vs => .ok (v :: vs)
       | .err => .err | .panic => .panic | .diverge => .diverge | .depth => .depth
     | .err => .err | .panic => .panic | .diverge => .diverge | .depth => .depth
-/-- the `while let Some((key, value)) = access.next_entry()?` loop of `visit_map` -/
+/-- the `while let Some((key, value)) = access.next_entry()?` loop of `visit_map`; `ms` are the members not
+yet visited, in the order the `MapAccess` delivers them -/
 def visitMap : Members → List Char → List (List Char × Val) → Res Val
   | .nil, kind, d => finish kind d
   | .cons k j ms, kind, d =>
@@ -304,9 +318,9 @@ def visitMap : Members → List Char → List (List Char × Val) → Res Val
       if k == s "_kind" then
         match v with
         | .str kd =>
-          if kd == s "marker" then .ok .marker
-          else if kd == s "remove" then .ok .remove
-          else if kd == s "na" then .ok .na
+          if kd == s "marker" then earlyReturn ms .marker
+          else if kd == s "remove" then earlyReturn ms .remove
+          else if kd == s "na" then earlyReturn ms .na
           else if knownKinds.any (fun x => s x == kd) then visitMap ms kd d
           else .err
         | _ => .err
